@@ -3,11 +3,11 @@
    happened (the OS key list is up to date) -- one millisecond (tick_ms(1)) emits nothing and leads to such a state again,
    with the layout only aged.  Hence any number of milliseconds slept through while the loop is blocked are unobservable. *)
 From Coq Require Import Lia.
-From KV Require Import Kanata.Glue Proofs.LayoutBasics Proofs.C07Proofs Proofs.C04Refine Proofs.C04Kanata.
+From KV Require Import Kanata.Glue Proofs.LayoutBasics Proofs.C07Proofs Proofs.C04Refine Proofs.C04Kanata Proofs.C07ChordsIdle.
 
 Record IdleK (k : kstate) : Prop := {
   ik_quiet : quiet (k_layout k);
-  ik_ch2 : chords2 (k_layout k) = None;
+  ik_ch2 : match chords2 (k_layout k) with None => True | Some ch => chv2_is_idle ch = true end;
   ik_scroll : k_scroll k = None; ik_hscroll : k_hscroll k = None;
   ik_mmv : k_mmv k = None; ik_mmh : k_mmh k = None;
   ik_seq : sq_active (k_seq k) = false;
@@ -22,6 +22,25 @@ Record IdleK (k : kstate) : Prop := {
 
 Lemma keycodes_aged l : keycodes (aged l) = keycodes l.
 Proof. reflexivity. Qed.
+
+(* the layout after the chord machine's part of a tick (only its own countdowns move when it is idle) *)
+Definition chv2_ticked (l : layout) : layout := match chv2_pre l with Ok l1 => l1 | _ => l end.
+Definition idle_aged (l : layout) : layout := aged (chv2_ticked l).
+Fixpoint idle_aged_n (n : nat) (l : layout) : layout := match n with O => l | S m => idle_aged_n m (idle_aged l) end.
+
+Lemma quiet_set_chords2 x l : quiet l -> quiet (set_chords2 x l).
+Proof. intros [H1 H2 H3 H4 H5 H6 H7 H8 H9 H10]. constructor; assumption. Qed.
+
+Lemma idle_pre l :
+  quiet l -> match chords2 l with None => True | Some ch => chv2_is_idle ch = true end ->
+  chv2_pre l = Ok (chv2_ticked l) /\ quiet (chv2_ticked l) /\ keycodes (chv2_ticked l) = keycodes l /\
+  match chords2 (chv2_ticked l) with None => True | Some ch => chv2_is_idle ch = true end.
+Proof.
+  intros Hq Hc. unfold chv2_ticked. destruct (chords2 l) as [ch|] eqn:E.
+  - destruct (idle_chords_pre l ch E Hc) as (ch' & Ep & Hi). rewrite Ep.
+    split; [reflexivity|]. split; [apply quiet_set_chords2; exact Hq|]. split; [reflexivity|]. cbn. exact Hi.
+  - rewrite (chv2_pre_none l E). split; [reflexivity|]. split; [exact Hq|]. split; [reflexivity|]. rewrite E. exact I.
+Qed.
 
 Lemma mem_n_refl_in x l : In x l -> mem_n x l = true.
 Proof. intros H. unfold mem_n. apply existsb_exists. exists x. split; [exact H|apply N.eqb_refl]. Qed.
@@ -42,12 +61,14 @@ Qed.
 
 Theorem idle_tick_is_silent cfg k :
   kc_overrides cfg = [] -> kc_seq_always_on cfg = false -> IdleK k ->
-  exists k', k_tick cfg k = Ok (k', []) /\ IdleK k' /\ k_layout k' = aged (k_layout k) /\ k_prev_keys k' = k_prev_keys k /\
+  exists k', k_tick cfg k = Ok (k', []) /\ IdleK k' /\ k_layout k' = idle_aged (k_layout k) /\ k_prev_keys k' = k_prev_keys k /\
              k_seq k' = k_seq k /\ k_ticks_since_idle k' = k_ticks_since_idle k /\ k_record k' = tick_record (k_record k).
 Proof.
   intros Hov Hao [Hq Hch Hsc Hhs Hmv Hmh Hseq Hrp Hcw Hwfi Hvk Hum Hus Hcd Hprev].
-  set (l' := aged (k_layout k)).
-  assert (EL : layout_tick (kc_layout cfg) (k_layout k) = Ok (l', CNone)) by (apply quiet_tick_is_noop; exact Hq).
+  destruct (idle_pre (k_layout k) Hq Hch) as (Hpre & Hq1 & Hk1 & Hch1).
+  set (l1 := chv2_ticked (k_layout k)) in *.
+  set (l' := aged l1).
+  assert (EL : layout_tick (kc_layout cfg) l1 = Ok (l', CNone)) by (apply quiet_tick_is_noop; exact Hq1).
   assert (EH : exists k1, handle_keystate_changes cfg k = Ok (k1, k_prev_keys k, []) /\
                           k_layout k1 = l' /\ k_seq k1 = k_seq k /\ k_scroll k1 = None /\ k_hscroll k1 = None /\ k_mmv k1 = None /\
                           k_mmh k1 = None /\ k_mm_buffer k1 = k_mm_buffer k /\ k_replay k1 = None /\ k_caps_word k1 = None /\
@@ -55,7 +76,7 @@ Proof.
                           k_unshifted_keys k1 = [] /\ k_macro_cancel_dur k1 = 0 /\ k_ticks_since_idle k1 = k_ticks_since_idle k /\
                           k_record k1 = k_record k).
   { unfold handle_keystate_changes, layout_tick2.
-    rewrite (chv2_pre_none _ Hch). cbn [bind]. rewrite EL. cbn [bind].
+    rewrite Hpre. cbn [bind]. rewrite EL. cbn [bind].
     rewrite Hum, Hus, Hov. cbn [override_keys]. rewrite mark_overridden_nil, set_states_id.
     assert (Eset : (if kc_override_release_on_activation cfg
                     then set_states (filter (fun s0 => match s0 with
@@ -68,7 +89,7 @@ Proof.
       { apply filter_all_true. intros x. destruct x; reflexivity. }
       rewrite F. apply set_states_id. }
     rewrite Eset. rewrite Hcw.
-    assert (Ecur : keycodes l' = k_prev_keys k) by (unfold l'; rewrite keycodes_aged; symmetry; exact Hprev).
+    assert (Ecur : keycodes l' = k_prev_keys k) by (unfold l'; rewrite keycodes_aged, Hk1; symmetry; exact Hprev).
     rewrite Ecur.
     set (cur := k_prev_keys k).
     cbv beta iota zeta.
@@ -117,7 +138,8 @@ Proof.
                        k_unmodded_keys k_unshifted_keys k_macro_cancel_dur set_k_vkeys_pending set_k_layout set_k_prev_keys
                        set_k_record set_k_macro_cancel_dur set_k_waiting_for_idle set_k_mm_buffer set_k_mmh set_k_mmv
                        set_k_hscroll set_k_scroll]; try reflexivity; try assumption.
-    all: try (apply aged_quiet; exact Hq); try (rewrite H2; exact Hseq); try (unfold l'; rewrite keycodes_aged; exact Hprev).
+    all: try (apply aged_quiet; exact Hq1); try (rewrite H2; exact Hseq); try (unfold l'; rewrite keycodes_aged, Hk1; exact Hprev);
+      try exact Hch1.
 Qed.
 
 (* any number of milliseconds *)
@@ -129,14 +151,14 @@ Fixpoint k_ticks (cfg : kcfg) (n : nat) (k : kstate) : outcome (kstate * list os
 
 Theorem idle_ticks_are_silent cfg : kc_overrides cfg = [] -> kc_seq_always_on cfg = false ->
   forall n k, IdleK k ->
-  exists k', k_ticks cfg n k = Ok (k', []) /\ IdleK k' /\ k_layout k' = aged_n n (k_layout k) /\ k_prev_keys k' = k_prev_keys k /\
+  exists k', k_ticks cfg n k = Ok (k', []) /\ IdleK k' /\ k_layout k' = idle_aged_n n (k_layout k) /\ k_prev_keys k' = k_prev_keys k /\
              k_seq k' = k_seq k /\ k_ticks_since_idle k' = k_ticks_since_idle k.
 Proof.
   intros Hov Hao. induction n as [|n IH]; intros k Hi.
-  - exists k. cbn [k_ticks aged_n]. split; [reflexivity|]. split; [exact Hi|]. repeat split; reflexivity.
+  - exists k. cbn [k_ticks idle_aged_n]. split; [reflexivity|]. split; [exact Hi|]. repeat split; reflexivity.
   - destruct (idle_tick_is_silent cfg k Hov Hao Hi) as (k1 & E1 & I1 & L1 & P1 & S1 & T1 & _).
     destruct (IH k1 I1) as (k2 & E2 & I2 & L2 & P2 & S2 & T2).
-    exists k2. cbn [k_ticks aged_n]. rewrite E1. cbn [bind]. rewrite E2. cbn [bind app].
+    exists k2. cbn [k_ticks idle_aged_n]. rewrite E1. cbn [bind]. rewrite E2. cbn [bind app].
     split; [reflexivity|]. split; [exact I2|]. rewrite L2, L1, P2, P1, S2, S1, T2, T1. repeat split; reflexivity.
 Qed.
 
@@ -145,7 +167,9 @@ Qed.
 Theorem idlek_is_idle k : IdleK k -> k_live_reload_requested k = false -> k_is_idle k = true.
 Proof.
   intros [[Hqq Hw He Hl Ho Hp Hs Ht Ha Hst] Hch Hsc Hhs Hmv Hmh Hseq Hrp Hcw Hwfi Hvk Hum Hus Hcd Hprev] Hlr.
-  unfold k_is_idle. rewrite Hqq, Hw, He, Hl, Ho, Hp, Hs, Ht, Ha, Hseq, Hsc, Hhs, Hmv, Hmh, Hrp, Hcw, Hvk, Hcd, Hch, Hwfi, Hlr.
+  assert (Hc2 : (match chords2 (k_layout k) with Some ch => chv2_is_idle ch | None => true end) = true).
+  { destruct (chords2 (k_layout k)); [exact Hch|reflexivity]. }
+  unfold k_is_idle. rewrite Hqq, Hw, He, Hl, Ho, Hp, Hs, Ht, Ha, Hseq, Hsc, Hhs, Hmv, Hmh, Hrp, Hcw, Hvk, Hcd, Hc2, Hwfi, Hlr.
   cbn [negb orb andb N.eqb]. rewrite orb_true_r. cbn [andb].
   assert (F1 : forallb (fun pk => mem_n pk (keycodes (k_layout k))) (k_prev_keys k) = true).
   { rewrite Hprev. apply forallb_forall. intros x Hx. apply mem_n_refl_in. exact Hx. }
@@ -164,4 +188,15 @@ Definition ex_idle : kstate :=
   set_k_prev_keys [42; 30]
     (k_init (set_states [NormalKey 42 (0, 1) 0; LayerModifier 1 (0, 3); NormalKey 30 (0, 0) 0] (init_layout 0))).
 Example idlek_example : IdleK ex_idle /\ k_live_reload_requested ex_idle = false /\ keycodes (k_layout ex_idle) = [42; 30].
-Proof. split; [constructor; try reflexivity; constructor; reflexivity|]. split; reflexivity. Qed.
+Proof. split; [constructor; try reflexivity; try exact I; constructor; reflexivity|]. split; reflexivity. Qed.
+
+Lemma idle_aged_without_chords l : chords2 l = None -> idle_aged l = aged l.
+Proof. intros H. unfold idle_aged, chv2_ticked. rewrite (chv2_pre_none l H). reflexivity. Qed.
+
+(* ... and the same with an idle chords-v2 machine in its ignore window *)
+Definition ex_idle_chv2 : kstate :=
+  set_k_prev_keys [42]
+    (k_init (set_chords2 (Some (set_cv_ignore 3 (chv2_init [mkchord2 (KeyCode 30) [1; 2] 50 [] false] 5)))
+                         (set_states [NormalKey 42 (0, 1) 0] (init_layout 0)))).
+Example idlek_chv2_example : IdleK ex_idle_chv2 /\ chords2 (k_layout ex_idle_chv2) <> None.
+Proof. split; [constructor; try reflexivity; constructor; reflexivity|discriminate]. Qed.
